@@ -225,8 +225,9 @@ func (w *bannerResponseWriter) Write(bs []byte) (int, error) {
 
 // Proxy builds an HTTP handler that proxies to a wrapped handler but injects the given HTML banner into every HTML response.
 func Proxy(ctx context.Context, wrapped http.Handler, bannerHTML, bannerHeight, favIconURL string, metricHandler *metrics.MetricHandler) (http.Handler, error) {
-	mux := http.NewServeMux()
-	mux.HandleFunc("/", func(w http.ResponseWriter, r *http.Request) {
+	// (Not an http.ServeMux: that answers requests whose path is not in canonical
+	// form, such as "/a//b", with a redirect of its own.)
+	return http.HandlerFunc(func(w http.ResponseWriter, r *http.Request) {
 		if !isHTMLRequest(r) {
 			wrapped.ServeHTTP(w, r)
 			return
@@ -241,6 +242,5 @@ func Proxy(ctx context.Context, wrapped http.Handler, bannerHTML, bannerHeight, 
 			metricHandler:   metricHandler,
 		}
 		wrapped.ServeHTTP(w, r)
-	})
-	return mux, nil
+	}), nil
 }
